@@ -20,6 +20,12 @@ var opCounter = 0
 func substitute(s string, hosts []string, opid string) string {
 	for i, h := range hosts {
 		s = strings.ReplaceAll(s, fmt.Sprintf("{H%d}", i), h)
+		/* the address of host i without its port: authorities that differ from it by port only */
+		if strings.Contains(s, "{I") {
+			if c := strings.LastIndexByte(h, ':'); c >= 0 {
+				s = strings.ReplaceAll(s, fmt.Sprintf("{I%d}", i), h[:c])
+			}
+		}
 	}
 	s = strings.ReplaceAll(s, "{OP}", opid)
 	if sim != nil {
